@@ -229,8 +229,8 @@ func textREMatch(args ...tengo.Object) (ret tengo.Object, err error) {
 
 	matched, err := regexp.MatchString(s1, s2)
 	if err != nil {
-		ret = wrapError(err)
-		return
+		// the Go error is the result value, not a run-time error
+		return wrapError(err), nil
 	}
 
 	if matched {
@@ -261,8 +261,8 @@ func textREFind(args ...tengo.Object) (ret tengo.Object, err error) {
 
 	re, err := regexp.Compile(s1)
 	if err != nil {
-		ret = wrapError(err)
-		return
+		// the Go error is the result value, not a run-time error
+		return wrapError(err), nil
 	}
 
 	s2, ok := tengo.ToString(args[1])
@@ -374,7 +374,9 @@ func textREReplace(args ...tengo.Object) (ret tengo.Object, err error) {
 
 	re, err := regexp.Compile(s1)
 	if err != nil {
+		// the Go error is the result value, not a run-time error
 		ret = wrapError(err)
+		err = nil
 	} else {
 		s, ok := doTextRegexpReplace(re, s2, s3)
 		if !ok {
@@ -429,8 +431,8 @@ func textRESplit(args ...tengo.Object) (ret tengo.Object, err error) {
 
 	re, err := regexp.Compile(s1)
 	if err != nil {
-		ret = wrapError(err)
-		return
+		// the Go error is the result value, not a run-time error
+		return wrapError(err), nil
 	}
 
 	arr := &tengo.Array{}
@@ -461,7 +463,9 @@ func textRECompile(args ...tengo.Object) (ret tengo.Object, err error) {
 
 	re, err := regexp.Compile(s1)
 	if err != nil {
+		// the Go error is the result value, not a run-time error
 		ret = wrapError(err)
+		err = nil
 	} else {
 		ret = makeTextRegexp(re)
 	}
@@ -929,8 +933,8 @@ func textParseBool(args ...tengo.Object) (ret tengo.Object, err error) {
 
 	parsed, err := strconv.ParseBool(s1.Value)
 	if err != nil {
-		ret = wrapError(err)
-		return
+		// the Go error is the result value, not a run-time error
+		return wrapError(err), nil
 	}
 
 	if parsed {
@@ -970,8 +974,8 @@ func textParseFloat(args ...tengo.Object) (ret tengo.Object, err error) {
 
 	parsed, err := strconv.ParseFloat(s1.Value, i2)
 	if err != nil {
-		ret = wrapError(err)
-		return
+		// the Go error is the result value, not a run-time error
+		return wrapError(err), nil
 	}
 
 	ret = &tengo.Float{Value: parsed}
@@ -1017,8 +1021,8 @@ func textParseInt(args ...tengo.Object) (ret tengo.Object, err error) {
 
 	parsed, err := strconv.ParseInt(s1.Value, i2, i3)
 	if err != nil {
-		ret = wrapError(err)
-		return
+		// the Go error is the result value, not a run-time error
+		return wrapError(err), nil
 	}
 
 	ret = &tengo.Int{Value: parsed}
